@@ -100,6 +100,7 @@ func runUpload(c UploadCase) *uploadRun {
 	req := httptest.NewRequest("POST", "http://verif.test/", nil)
 	req.URL = &url.URL{Scheme: "http", Host: "verif.test", Path: "/t/upload"}
 	req.Header.Set("Content-Type", "application/x-raw")
+	req.Header.Set("Accept", "application/json") // the reply is an ordinary message: it needs a codec the mux has
 	var rd io.Reader = bytes.NewReader(body)
 	switch c.Mode {
 	case "dataerr":
